@@ -307,6 +307,22 @@ def replay_reused_fluid(model, nx=4):
                             "inputs": {}}
 
 
+def replay_rows_buildup(model, nx=4):
+    """Real single-phase runs whose frac-face schedule rises above the initial pressure after some drawdown (a build-up, or
+    injection): every stored level against the backward-Euler update of the stored previous level."""
+    import numpy as np
+    fluid = _real_fluid()
+    t = np.array([0.0, 0.004, 0.02, 0.05, 0.2, 0.5])
+    for n in (nx, 12):
+        for sched in ([2000.0, 2000.0, 2000.0, 9500.0, 11000.0, 11000.0], [6000.0, 3000.0, 8500.0, 8500.0, 4000.0, 9000.0]):
+            res, calls = real_capture("SinglePhaseReservoir", n, t, fluid, np.array(sched))
+            problems = _rows_problems(calls, np.asarray(res.pseudopressure, float), t, n, fluid, "SinglePhaseReservoir")
+            if problems:
+                return True, {"what": f"SinglePhaseReservoir nx={n}, p_i=8000, schedule {sched} (rises above the initial pressure): " + "; ".join(problems[:2]),
+                              "inputs": {"schedule": sched}}
+    return False, {"what": "every stored level of the build-up runs is the backward-Euler update", "inputs": {}}
+
+
 def replay_rows_after_recovery(model, cls="SinglePhaseReservoir", nx=4):
     """Real run, then recovery_factor() and the interpolator (as every plot and fit does): the stored levels are still the
     backward-Euler updates they were right after simulate."""
@@ -325,7 +341,7 @@ def replay_rows_after_recovery(model, cls="SinglePhaseReservoir", nx=4):
                  else f"{cls}: stored levels untouched by the recovery calls", "inputs": {}}
 
 
-def job_rows(job, cls, nx, nt, schedule=False, reachable=False, tdtype="f8", reused_fluid=False, tseries=False, after_recovery=False):
+def job_rows(job, cls, nx, nt, schedule=False, reachable=False, tdtype="f8", reused_fluid=False, tseries=False, after_recovery=False, buildup=False):
     """reachable=False: every level is havoc'd inside C01's bounds (covers any number of steps; a counterexample may
     start from a level no run reaches and is then not confirmed by the replay).  reachable=True: the levels are the
     exact solutions from the real initial state (the first nt-1 steps only), so a counterexample is a real run."""
@@ -334,7 +350,7 @@ def job_rows(job, cls, nx, nt, schedule=False, reachable=False, tdtype="f8", reu
     job.stub("linear solve: capturing stub (records A, b, keyword arguments; returns an arbitrary vector - every level is havoc'd, "
              "bounded above by the initial value as C01 establishes)", "scipy.sparse.diags: exact dense model", "fluid*: contract stub")
     job.bound(rows_nx=nx, rows_steps=nt - 1)
-    tag = f"{cls}[nx={nx},steps={nt - 1}{',schedule' if schedule else ''}{',from the initial state' if reachable else ''}{',integer time grid' if tdtype != 'f8' else ''}{',object re-used after its fluid was replaced' if reused_fluid else ''}{',time grid a pandas Series' if tseries else ''}{',read after recovery_factor()' if after_recovery else ''}]"
+    tag = f"{cls}[nx={nx},steps={nt - 1}{',schedule' if schedule else ''}{',from the initial state' if reachable else ''}{',integer time grid' if tdtype != 'f8' else ''}{',object re-used after its fluid was replaced' if reused_fluid else ''}{',time grid a pandas Series' if tseries else ''}{',read after recovery_factor()' if after_recovery else ''}{',schedule may rise above the initial pressure' if buildup else ''}]"
     if reachable:
         job.solve_defaults = {"elim": True}
     hold = {}
@@ -379,8 +395,10 @@ def job_rows(job, cls, nx, nt, schedule=False, reachable=False, tdtype="f8", reu
             if after_recovery:
                 r.recovery_factor()
             return r, None, t, list(SS.LinSolve.calls)
-        fluid = FluidStub()
-        hold["hi"] = fluid.m_i
+        fluid = FluidStub(unbounded=buildup)
+        # with frac-face pressures above the initial pressure (a build-up after drawdown) a level may exceed the initial
+        # value next to the fracture: no bound is assumed on the solved levels then
+        hold["hi"] = None if buildup else fluid.m_i
         hold["fluid"] = fluid
         r = mod.SinglePhaseReservoir(Q(nx), fresh("pf"), fresh("pi", pos=True), fluid)
         if reused_fluid:
@@ -404,6 +422,8 @@ def job_rows(job, cls, nx, nt, schedule=False, reachable=False, tdtype="f8", reu
         rp = (replay_series_time, {"cls": cls, "nx": nx})
     if after_recovery:
         rp = (replay_rows_after_recovery, {"cls": cls, "nx": nx})
+    if buildup:
+        rp = (replay_rows_buildup, {"nx": nx})
     for k, pr in enumerate(paths(job, run, [], max_paths=16)):
         if pr.exc is not None:
             if tseries:
@@ -547,7 +567,7 @@ def job_flag(job, cls, nx=4):
 
 
 # concrete replays run on the real code when the changed code uses something the engine does not model (harness.finish)
-FALLBACK = [(replay_rows, {}), (replay_rows, {"cls": "IdealReservoir"}), (replay_rows, {"schedule": True}), (replay_rows, {"tdtype": "i8"}), (replay_tolerance, {}), (replay_flag, {}), (replay_series_time, {}), (replay_series_time, {"cls": "IdealReservoir"}), (replay_rows_after_recovery, {}), (replay_rows_after_recovery, {"cls": "IdealReservoir"})]
+FALLBACK = [(replay_rows_buildup, {}), (replay_rows, {}), (replay_rows, {"cls": "IdealReservoir"}), (replay_rows, {"schedule": True}), (replay_rows, {"tdtype": "i8"}), (replay_tolerance, {}), (replay_flag, {}), (replay_series_time, {}), (replay_series_time, {"cls": "IdealReservoir"}), (replay_rows_after_recovery, {}), (replay_rows_after_recovery, {"cls": "IdealReservoir"})]
 
 
 def jobs(tier):
@@ -564,6 +584,7 @@ def jobs(tier):
         out.append((f"rows-reach-series-time-{cls[:6]}-3", lambda j, c=cls: job_rows(j, c, 3, 3, schedule=False, reachable=True, tseries=True)))
         if cls != "IdealReservoir":
             out.append(("rows-reach-reused-fluid-3", lambda j: job_rows(j, "SinglePhaseReservoir", 3, 3, reachable=True, reused_fluid=True)))
+            out.append(("rows-reach-buildup-3", lambda j: job_rows(j, "SinglePhaseReservoir", 3, 3, schedule=True, reachable=True, buildup=True)))
         out.append((f"tolerance-{cls[:6]}", lambda j, c=cls: job_tolerance(j, c)))
         out.append((f"flag-{cls[:6]}", lambda j, c=cls: job_flag(j, c)))
         for big in ((201, 401) if tier == "quick" else (201, 401, 1001)):
